@@ -18,9 +18,13 @@
 // `reset ... stop=later|inline1|inline0`: the recording INodeApp completes StopNode through a later
 // `stopdone` op (or never), or inside the StopNode call with true / false.
 //
-// One observation per op:
+// `reset ... pd=<ms,ms,...>`: INodeApp.UpdateNodeState is the REAL node/app.App.UpdateNodeState with a stub
+// cluster provider whose k-th UpdateClusterState takes pd[k] ms of virtual time.
 //
-//	r=<reply class> pub=<states published> stop=<StopNode calls> sent=<sorted name:cmd> st=<NodeCtrl.GetState()>
+// One observation per op (pub: states in the order the provider saw them complete; upd: states in the
+// order the controller handed them to UpdateNodeState):
+//
+//	r=<reply class> pub=<states published> upd=<states> stop=<StopNode calls> sent=<sorted name:cmd> st=<NodeCtrl.GetState()>
 package c12
 
 import (
@@ -48,6 +52,7 @@ import (
 	"github.com/dfklegend/cell2/node/app"
 	"github.com/dfklegend/cell2/node/builtin"
 	"github.com/dfklegend/cell2/node/builtin/msgs"
+	"github.com/dfklegend/cell2/node/cluster"
 	"github.com/dfklegend/cell2/node/config"
 	nservice "github.com/dfklegend/cell2/node/service"
 	"github.com/dfklegend/cell2/nodectrl"
@@ -59,13 +64,16 @@ import (
 // ---------------------------------------------------------------- recording
 
 type rec struct {
-	mu    sync.Mutex
-	pubs  []int
-	stops int
-	fins  []func(bool)
-	sent  []string
-	reply string // last reply received by the issuing actor
-	got   bool
+	mu       sync.Mutex
+	upd      []int // states handed to INodeApp.UpdateNodeState, in call order (the node's own state changes)
+	inCall   int   // UpdateNodeState calls that have not returned yet
+	inFlight int   // provider.UpdateClusterState calls that have not completed yet
+	pubs     []int // states as the cluster provider sees them *complete*
+	stops    int
+	fins     []func(bool)
+	sent     []string
+	reply    string // last reply received by the issuing actor
+	got      bool
 }
 
 func (r *rec) addSent(name, route, cmd string) {
@@ -89,6 +97,7 @@ type recApp struct {
 	names []string
 	pids  map[string]*actor.PID
 	r     *rec
+	real  *app.App
 	// how StopNode completes: "later" (op stopdone), "inline1" / "inline0": the callback runs inside
 	// StopNode, before it returns, with true / false (what baseapp does when every module stops synchronously)
 	stopMode string
@@ -101,10 +110,45 @@ func (a *recApp) FilterSelfServices(filter func(name string, cfg *config.Service
 		filter(n, &config.ServiceInfo{Type: "verif"})
 	}
 }
+
+// UpdateNodeState goes through the REAL node/app.App.UpdateNodeState (app.Node with the
+// stub provider below), so that "mirrored to the discovery provider" is what is observed.
 func (a *recApp) UpdateNodeState(state int) {
 	a.r.mu.Lock()
-	a.r.pubs = append(a.r.pubs, state)
+	a.r.upd = append(a.r.upd, state)
+	a.r.inCall++
 	a.r.mu.Unlock()
+	a.real.UpdateNodeState(state)
+	a.r.mu.Lock()
+	a.r.inCall--
+	a.r.mu.Unlock()
+}
+
+// provStub is the cluster provider: the k-th UpdateClusterState of a case takes delays[k] of
+// (virtual) time - registry IO - and the state counts as published when the call completes.
+type provStub struct {
+	r      *rec
+	delays []time.Duration
+	n      int
+}
+
+func (p *provStub) StartMember(cluster.ICluster) error { return nil }
+func (p *provStub) StartClient(cluster.ICluster) error { return nil }
+func (p *provStub) Shutdown(bool) error                { return nil }
+func (p *provStub) UpdateClusterState(state int) error {
+	p.r.mu.Lock()
+	k := p.n
+	p.n++
+	p.r.inFlight++
+	p.r.mu.Unlock()
+	if k < len(p.delays) && p.delays[k] > 0 {
+		time.Sleep(p.delays[k])
+	}
+	p.r.mu.Lock()
+	p.r.pubs = append(p.r.pubs, state)
+	p.r.inFlight--
+	p.r.mu.Unlock()
+	return nil
 }
 func (a *recApp) StopNode(fin func(succ bool)) {
 	a.r.mu.Lock()
@@ -231,17 +275,18 @@ type svc struct {
 }
 
 type world struct {
-	sys    *actor.ActorSystem
-	ctrl   *nodectrl.NodeCtrl
-	app    *recApp
-	r      *rec
-	svcs   []*svc
-	master *rawSvc
-	mpid   *actor.PID
-	ghost  *rawSvc
-	gpid   *actor.PID
-	all    []*actor.PID // everything with a run service to stop
-	plain  []*actor.PID // scripted actors on the default dispatcher
+	sys     *actor.ActorSystem
+	ctrl    *nodectrl.NodeCtrl
+	app     *recApp
+	r       *rec
+	svcs    []*svc
+	master  *rawSvc
+	mpid    *actor.PID
+	ghost   *rawSvc
+	gpid    *actor.PID
+	all     []*actor.PID // everything with a run service to stop
+	plain   []*actor.PID // scripted actors on the default dispatcher
+	delayed bool         // the provider takes virtual time in this case
 }
 
 // One ActorSystem for the whole run (creating one costs ~2.5 ms); every case gets fresh actors.
@@ -293,16 +338,17 @@ func (w *world) spawnRaw(name string) (*rawSvc, *actor.PID) {
 	return s, pid
 }
 
-func newWorld(kinds []string, stopMode string) *world {
+func newWorld(kinds []string, stopMode string, delays []time.Duration) *world {
 	if cur != nil {
 		cur.teardown()
 	}
 	caseNo++
-	w := &world{sys: system(), r: &rec{}}
+	w := &world{sys: system(), r: &rec{}, delayed: len(delays) > 0}
 	// the real stateutils.NotifyServiceRetired reaches the controller through the global app.Node
 	app.Node = app.NewNode()
 	w.ctrl = app.Node.GetNodeCtrl()
-	w.app = &recApp{sys: w.sys, pids: map[string]*actor.PID{}, r: w.r, stopMode: stopMode}
+	app.Node.SetProvider(&provStub{r: w.r, delays: delays})
+	w.app = &recApp{sys: w.sys, pids: map[string]*actor.PID{}, r: w.r, stopMode: stopMode, real: app.Node}
 	for i, k := range kinds {
 		s := &svc{name: fmt.Sprintf("s%d", i), kind: k}
 		switch k {
@@ -350,23 +396,26 @@ func newWorld(kinds []string, stopMode string) *world {
 }
 
 // drain returns and clears what was recorded since the previous op.
-func (w *world) drain() (pubs []int, stops int, sent []string, reply string, got bool) {
+func (w *world) drain() (pubs, upd []int, stops int, sent []string, reply string, got bool) {
 	r := w.r
 	r.mu.Lock()
 	defer r.mu.Unlock()
-	pubs, stops, sent, reply, got = r.pubs, r.stops, r.sent, r.reply, r.got
-	r.pubs, r.stops, r.sent, r.reply, r.got = nil, 0, nil, "", false
+	pubs, upd, stops, sent, reply, got = r.pubs, r.upd, r.stops, r.sent, r.reply, r.got
+	r.pubs, r.upd, r.stops, r.sent, r.reply, r.got = nil, nil, 0, nil, "", false
 	sort.Strings(sent)
 	return
 }
 
 func (w *world) obs(class func(reply string, got bool) string) string {
-	pubs, stops, sent, reply, got := w.drain()
-	ps := make([]string, len(pubs))
-	for i, p := range pubs {
-		ps[i] = stName(p)
+	pubs, upd, stops, sent, reply, got := w.drain()
+	names := func(xs []int) string {
+		ps := make([]string, len(xs))
+		for i, p := range xs {
+			ps[i] = stName(p)
+		}
+		return strings.Join(ps, ",")
 	}
-	return fmt.Sprintf("r=%s pub=%s stop=%d sent=%s st=%s", class(reply, got), strings.Join(ps, ","), stops,
+	return fmt.Sprintf("r=%s pub=%s upd=%s stop=%d sent=%s st=%s", class(reply, got), names(pubs), names(upd), stops,
 		strings.Join(sent, ","), stName(int(w.ctrl.GetState())))
 }
 
@@ -397,6 +446,30 @@ func (w *world) svcAt(ws []string) *svc {
 	return w.svcs[i]
 }
 
+// settle makes an op synchronous: quiescence, and - when the provider takes (virtual) time - until no
+// UpdateNodeState call and no provider update is in progress any more. Only the ORDER in which
+// publications complete is observed, never how long they take: an implementation that publishes
+// asynchronously but in order is not flagged.
+func settle() {
+	synctest.Wait()
+	w := cur
+	if w == nil {
+		return
+	}
+	for i := 0; i < 2000; i++ {
+		w.r.mu.Lock()
+		busy := w.r.inCall > 0 || w.r.inFlight > 0
+		w.r.mu.Unlock()
+		// a cell2 run service that saw a long (virtual) frame throttles itself with time.Sleep(1-2 ms)
+		// before taking the next message: in a case with provider latency let that pass at least once
+		if !busy && (i > 0 || !w.delayed) {
+			return
+		}
+		time.Sleep(10 * time.Millisecond)
+		synctest.Wait()
+	}
+}
+
 // exec interprets one op line against the real code.
 func exec(op string) string {
 	ws := hx.Words(op)
@@ -410,7 +483,14 @@ func exec(op string) string {
 			kinds = strings.Split(k, ",")
 		}
 		sm, _ := hx.KV(ws, "stop")
-		w := newWorld(kinds, sm)
+		var delays []time.Duration
+		if pd, _ := hx.KV(ws, "pd"); pd != "" {
+			for _, d := range strings.Split(pd, ",") {
+				ms, _ := strconv.Atoi(d)
+				delays = append(delays, time.Duration(ms)*time.Millisecond)
+			}
+		}
+		w := newWorld(kinds, sm, delays)
 		return w.obs(func(string, bool) string { return "-" })
 	}
 	w := cur
@@ -423,7 +503,7 @@ func exec(op string) string {
 			return "bad-op"
 		}
 		w.sys.Root.Send(w.mpid, &doSend{route: "ctrl.cmd", msg: &msgs.CtrlCmd{Cmd: ws[1]}})
-		synctest.Wait()
+		settle()
 		if ws[1] == "stat" || ws[1] == "web_nodes" {
 			return w.obs(infoClass)
 		}
@@ -435,7 +515,7 @@ func exec(op string) string {
 		if s != nil && s.raw != nil {
 			s.raw.acked = "none"
 			w.sys.Root.Send(s.pid, &doAck{res: res})
-			synctest.Wait()
+			settle()
 			acked = s.raw.acked
 		}
 		return w.obs(func(string, bool) string { return "ack:" + acked })
@@ -453,14 +533,14 @@ func exec(op string) string {
 				name = fmt.Sprintf("s%d", k)
 			}
 			w.sys.Root.Send(w.gpid, &doSend{route: "ctrl.servicecmd", msg: &msgs.ServiceCmd{Name: name, Cmd: c}})
-			synctest.Wait()
+			settle()
 			return w.obs(okOrRefused)
 		}
 		switch {
 		case s.node != nil && c == "retired":
 			ns := s.node.NodeService
 			ns.Post(func() { app.NotifyServiceRetired(ns) })
-			synctest.Wait()
+			settle()
 			return w.obs(func(string, bool) string { return "na" })
 		case s.raw != nil:
 			w.sys.Root.Send(s.pid, &doSend{route: "ctrl.servicecmd", msg: &msgs.ServiceCmd{Name: s.name, Cmd: c}})
@@ -468,7 +548,7 @@ func exec(op string) string {
 			// a service without a reachable actor (dead) or a NodeService sending a non-standard command: the master speaks for it
 			w.sys.Root.Send(w.mpid, &doSend{route: "ctrl.servicecmd", msg: &msgs.ServiceCmd{Name: s.name, Cmd: c}})
 		}
-		synctest.Wait()
+		settle()
 		return w.obs(okOrRefused)
 	case "stopdone":
 		w.r.mu.Lock()
@@ -483,12 +563,12 @@ func exec(op string) string {
 			fin(hx.KVInt(ws, "succ") == 1)
 			called = "called"
 		}
-		synctest.Wait()
+		settle()
 		return w.obs(func(string, bool) string { return called })
 	case "tick":
 		// lets every outstanding request of the admin service time out (30 s)
 		time.Sleep(40 * time.Second)
-		synctest.Wait()
+		settle()
 		return w.obs(func(string, bool) string { return "-" })
 	}
 	return "bad-op"
@@ -525,7 +605,21 @@ func (g *gen) reset() (string, []string) {
 	}
 	mode := []string{"later", "later", "inline1", "inline1", "inline0"}[h.R.Intn(5)]
 	h.Count("reset.stop-" + mode)
-	return "reset k=" + strings.Join(ks, ",") + " stop=" + mode, ks
+	op := "reset k=" + strings.Join(ks, ",") + " stop=" + mode
+	// provider latency per publication (ms of virtual time): none / random / first slow, later fast
+	switch h.R.Intn(4) {
+	case 0:
+		pd := make([]string, 6)
+		for i := range pd {
+			pd[i] = strconv.Itoa(h.Pick(0, 0, 10, 100, 300))
+		}
+		h.Count("reset.provider-delay-random")
+		op += " pd=" + strings.Join(pd, ",")
+	case 1:
+		h.Count("reset.provider-delay-descending")
+		op += " pd=" + []string{"300,200,100,50,0,0", "500,400,300,200,100,0", "50,0,300,0,0,0", "0,0,300,0,0,0"}[h.R.Intn(4)]
+	}
+	return op, ks
 }
 
 func (g *gen) idx(n int) string {
@@ -730,6 +824,7 @@ func TestExhaustive(t *testing.T) {
 		enum("raw-raw-inline1", "reset k=raw,raw stop=inline1", core, hx.EnvInt("VERIF_EXH_LEN3", 5))
 		enum("raw-nok-inline1", "reset k=raw,nok stop=inline1", full, hx.EnvInt("VERIF_EXH_LEN2", 4))
 		enum("raw-inline0", "reset k=raw stop=inline0", full, hx.EnvInt("VERIF_EXH_LEN2", 4))
+		enum("raw-inline1-slowfirst", "reset k=raw stop=inline1 pd=300,200,100,0,0,0", full, hx.EnvInt("VERIF_EXH_LEN2", 4))
 		h.Close()
 		os.Stdout.Sync()
 		syscall.Exit(0)
